@@ -231,6 +231,23 @@ def run(n, seed):
                         if f["kind"] in ("kill_at_op", "fail_output_lost"):
                             f["kind"] = "fail_before"
         cases.append(c)
+    # bitmap-pipeline histories: option walks over the wrapper rules, two fonts taking turns in one build directory
+    for i in range(max(1, n // 10)):
+        c = c09.gen_bitmap_pipeline_history(seed, 300000 + i)
+        c["id"] = "stubval-%d-bp%d" % (seed, i)
+        jb = c["jobs"][0]
+        jb["id"] = c["id"] + ".j0"
+        jb["root_id"] = "stubval/%d/bp%d" % (seed, i)
+        jb["keep_trace"] = False
+        jb["hashseed"] = 0
+        for op in jb["ops"]:
+            if op["op"] == "invoke":
+                op["sched"] = {"j": 1, "policy": "manifest", "seed": 0, "exec_at": "finish"}
+                if op.get("faults"):
+                    for f in op["faults"]:
+                        if f["kind"] in ("kill_at_op", "fail_output_lost"):
+                            f["kind"] = "fail_before"
+        cases.append(c)
     # variable-font histories: UFO *directories* are ninja outputs; the outside fault devices cannot tear a
     # directory, so these keep only fail_before / fail_after step faults
     for i in range(max(1, n // 6)):
